@@ -255,6 +255,44 @@ def through_rewriting(ctx):
                             break
 
 
+def through_minimize(ctx):
+    """the chunk-removal strategies on --js / --attrs files with SEVERAL strings / tags: every candidate is the file with
+    string characters / attributes deleted — the quotes, the text between strings, tag names and '>' stay where they are"""
+    from .. import strat
+    rng = ctx.rng
+    datas = {"jsstr": [b"f('abc', \"de\" + 'f\\x41j');\ng(\"hi\", 'k');\n", b"a = 'xy';\nb = \"z\" + 'w' + \"v\";\nc = 'u';\n"],
+             "attrs": [b"<div id=\"a\" class='b'><p y='2' hidden z=3>t</p><q w=\"1\">\n", b"<a b=1 c=2><d e=3 f=4><g h=5>\n"]}
+    for kind, ds in datas.items():
+        for data in ds:
+            res = loaders.real_load(kind, data)
+            if res[0] != "ok":
+                continue
+            f = strat.fields(res[1])
+            fixed = [p for p, r in zip(f[1], f[2]) if not r]
+            for name in ("minimize", "minimize-around", "minimize-balanced"):
+                for cfg in ({}, {"max": 2}, {"min": 2, "max": 4}):
+                    for p in (0.0, 0.4, 1.0):
+                        seq = [rng.random() < p for _ in range(97)]
+                        tc = strat.testcase_from_fields(kind, f)
+                        run = strat.run_real(name, cfg, tc, lambda k, c, seq=seq: seq[k % 97], max_tests=3000)
+                        ctx.evaluations += 1
+                        ctx.bump("through-minimize:" + kind)
+                        case = dict(splitter=kind, data=common.enc_bytes(data), via=name, cfg=cfg)
+                        for a in run.atts + [dict(cand=run.best)]:
+                            c = a["cand"]
+                            if [p_ for p_, r in zip(c[1], c[2]) if not r] != fixed or c[0] != f[0] or c[3] != f[3]:
+                                ctx.fail("protected-part-lost", f"{name} on a {kind} file: a candidate has the non-reducible parts "
+                                         f"{[p_ for p_, r in zip(c[1], c[2]) if not r]!r}, the file was split with {fixed!r}", case)
+                                break
+                            atoms_left = [p_ for p_, r in zip(c[1], c[2]) if r]
+                            orig_atoms = [p_ for p_, r in zip(f[1], f[2]) if r]
+                            it = iter(orig_atoms)
+                            if not all(any(x == y for y in it) for x in atoms_left):
+                                ctx.fail("protected-part-lost", f"{name} on a {kind} file: the reducible atoms {atoms_left!r} of a candidate are not a "
+                                         f"subsequence of the original's", case)
+                                break
+
+
 def through_collapse(ctx):
     """the atoms stay exactly string characters / attributes while minimize-collapse-brace works on the file: what is
     reducible in every candidate (in particular in the testcase re-split after a brace collapse) is what the reference
@@ -338,6 +376,7 @@ def run(ctx) -> int:
         one(ctx, "jsstr", gen_js(rng))
     through_collapse(ctx)
     through_rewriting(ctx)
+    through_minimize(ctx)
     for _ in range(3000 if ctx.thorough else 600):
         body = gen_js(rng).replace(b"DDBEGIN", b"").replace(b"DDEND", b"")
         one(ctx, "jsstr", b"pre 'x'\n// DDBEGIN\n" + body + b"\n// DDEND '\npost\"\n")
